@@ -8,12 +8,13 @@ enum { A_CALLBACK_AWAIT, A_CALLBACK_AWAIT_ALLOC, A_MAKE_PROMISE, A_MAKE_PROMISE_
        A_CALL_FN_AWAITER, A_CONV_VOID_SOURCE, A_CONV_FREE_CTX, A_COUNT };
 enum { O_VALUE, O_EXC, O_DROP };
 enum { T_BEFORE, T_LATER_SAME_THREAD, T_OTHER_THREAD };
-struct Prog { uint8_t adapter, outcome, timing, conv_throws, yields; uint8_t rearm = 0; uint8_t declines = 0; };   // declines (promise-passing converter): it returns without touching the promise it was handed   // rearm (call_fn_future_awaiter): the handler starts a second operation on the same awaiter
+struct Prog { uint8_t adapter, outcome, timing, conv_throws, yields; uint8_t rearm = 0; uint8_t declines = 0; uint8_t in_coro = 0; };   // in_coro (callback_await forms): the registration is made from inside a running coroutine   // declines (promise-passing converter): it returns without touching the promise it was handed   // rearm (call_fn_future_awaiter): the handler starts a second operation on the same awaiter
 
 inline Prog decode(hz::Reader &r) {
     Prog p; p.adapter = (uint8_t)r.mod(A_COUNT); p.outcome = (uint8_t)r.mod(3); p.timing = (uint8_t)r.mod(3); p.conv_throws = (uint8_t)(r.mod(4) == 0); p.yields = (uint8_t)r.mod(4);
     p.rearm = (uint8_t)(r.mod(4) != 0 && p.adapter == A_CALL_FN_AWAITER);
     p.declines = (uint8_t)(r.mod(2) == 1 && p.adapter == A_CONV_PROMISE_PASSING);
+    p.in_coro = (uint8_t)(r.mod(2) == 1 && (p.adapter == A_CALLBACK_AWAIT || p.adapter == A_CALLBACK_AWAIT_ALLOC));
     return p;
 }
 inline std::string describe(const Prog &p) {
@@ -22,6 +23,7 @@ inline std::string describe(const Prog &p) {
     static const char *on[] = {"value", "exception", "drop"};
     static const char *tn[] = {"resolved before registration", "resolved later on the same thread", "resolved concurrently on another thread"};
     hz::Desc d; d << an[p.adapter] << " x " << on[p.outcome] << " x " << tn[p.timing] << (p.conv_throws ? " (converter throws)" : "") << ", yield*" << (unsigned)p.yields;
+    if (p.in_coro) d << "; registered from inside a running coroutine (the helper starts after the registering expression has ended: it owns copies of the arguments)";
     if (p.declines) d << "; the converter declines: it returns without resolving or moving the promise (the outer future then ends as a broken promise)";
     if (p.rearm) d << "; the completion handler re-arms the awaiter with a second operation (resolved with a value the same way) and keeps working for a while";
     return d.s;
@@ -96,6 +98,17 @@ struct World {
 inline int conv_free(int &src) { return src + 1; }
 inline int conv_free_ctx(int &src, World *w) { if (w->conv_throws) throw val::TestExc(9); return src + 1; }
 
+// callback_await called inside a running coroutine, with a temporary, stateful function object as the argument the
+// awaitable is obtained from
+template<class CB>
+cocls::async<void> register_in_coro(World *pw, TrackStorage *stor, bool with_alloc, CB cb) {
+    if (with_alloc) cocls::callback_await_alloc<TrackStorage, cocls::future<int>>(*stor, cb, [pw, tag = 12345L] { if (tag != 12345L) hz::fail("the function object handed to callback_await was destroyed before the helper used it"); return pw->source(); });
+    // (the callback is passed as an rvalue: an lvalue would be stored by reference, and this coroutine's frame - which
+    // holds it - is gone when the helper runs)
+    else cocls::callback_await<cocls::future<int>>(std::move(cb), [pw, tag = 12345L] { if (tag != 12345L) hz::fail("the function object handed to callback_await was destroyed before the helper used it"); return pw->source(); });
+    co_return;
+}
+
 inline void run(hz::Reader &r) {
     Prog p = decode(r);
     bool conv = p.adapter == A_CONV_MEMBER || p.adapter == A_CONV_FREE || p.adapter == A_CONV_PROMISE_PASSING || p.adapter == A_CONV_VOID_SOURCE || p.adapter == A_CONV_FREE_CTX;
@@ -131,8 +144,8 @@ inline void run(hz::Reader &r) {
         w.rearm_fn = [pw, &cfa] { cfa << [pw] { return pw->source2(); }; };
         auto cb = [pw](cocls::await_result<int> res) { pw->fired(World::guarded([&] { return res.get(); })); };
         switch (p.adapter) {
-            case A_CALLBACK_AWAIT: cocls::callback_await<cocls::future<int>>(cb, [pw] { return pw->source(); }); break;
-            case A_CALLBACK_AWAIT_ALLOC: cocls::callback_await_alloc<TrackStorage, cocls::future<int>>(stor, cb, [pw] { return pw->source(); }); break;
+            case A_CALLBACK_AWAIT: if (p.in_coro) { register_in_coro(pw, &stor, false, cb).join(); break; } cocls::callback_await<cocls::future<int>>(cb, [pw] { return pw->source(); }); break;
+            case A_CALLBACK_AWAIT_ALLOC: if (p.in_coro) { register_in_coro(pw, &stor, true, cb).join(); break; } cocls::callback_await_alloc<TrackStorage, cocls::future<int>>(stor, cb, [pw] { return pw->source(); }); break;
             case A_MAKE_PROMISE: case A_MAKE_PROMISE_STORAGE: {
                 auto fn = [pw](cocls::future<int> &f) { pw->fired(World::guarded([&] { return f.value(); })); };
                 // (rvalue: the helper then owns a copy of the callback; an lvalue would be stored by reference)
@@ -185,7 +198,7 @@ static const char *const counter_names[] = {"c0"};
 
 namespace hz {
 static const Info I = {
-    "C18", 1, 12, 100000, true, true,
+    "C18", 1, 14, 100000, true, true,
     "rapidcheck generates (program, schedule, faults): adapter in {callback_await, callback_await_alloc with a tracking storage, make_promise(fn), make_promise(fn, storage), discard, future_conv (member / free / free+context / promise-passing / void-source forms, "
     "converter optionally throwing), call_fn_future_awaiter} x outcome {value, exception, drop} x timing {resolved before registration, later on the same thread, concurrently on another thread of the virtual runtime}. "
     "Oracle: the completion ran exactly once with exactly that outcome (value / same exception / broken promise), converters deliver value+1 or the source's or the converter's exception to the outer future, the helper block of the supplied storage is "
